@@ -197,7 +197,7 @@ fn main() {
     let args: Vec<String> = std::env::args().collect();
     if args.len() < 2 { eprintln!("usage: harness <ID> [quick|thorough] | --replay <file> | --list <ID> [tier]"); std::process::exit(2); }
     let code = if args[1] == "--replay" {
-        replay(&args[2])
+        match std::panic::catch_unwind(|| replay(&args[2])) { Ok(c) => c, Err(_) => { eprintln!("machinery error: panic outside a guarded subject call while replaying: {}", take_panic_info().unwrap_or_default()); 2 } }
     } else if args[1] == "--list" {
         let tier = tier_from_env(args.get(3).map(|s| s.as_str()));
         match props::build(&args[2], &tier) { Some(p) => { for s in p.scenarios.iter() { println!("{}", s.name); } 0 } None => 2 }
